@@ -127,4 +127,16 @@ PROPS = {
                      "exact .5 ties accept both neighbours; accelerated kernels are called directly only at sizes that "
                      "fill their vector step (the library itself selects them for m >= 8)", ASAN_NOTE],
     ),
+    "C17": dict(
+        runs=std(),
+        rule=("case = one kernel batch: extract/save (m, ref|avx, nrows, row stride, contiguous|strided) over all or "
+              "sampled block indices; layout round trip (m, variant); dot product (1|2 columns, ref|avx2, nrows, value "
+              "family); pointwise mul/addmul (layout, variant, m, family, aliasing); convolution (sizea, sizeb) over all "
+              "windows; distinct by descriptor hash; non-trivial when at least one row / term / operand is non-empty"),
+        require={"all": ["blocks_checked", "layout_roundtrips", "dot_products", "pointwise_vectors",
+                         "convolution_windows", "fftvec:cplx:avx512", "fftvec:cplx:sse", "fftvec:reim4:fma"]},
+        assumptions=["complex-arithmetic oracle in long double with the rounding budgets of DESIGN Appendix A",
+                     "the inner order of the four numbers of a reim4 block produced by reim4_from_cplx is not "
+                     "constrained (the library uses 0,2,1,3); the round trip and the re/im pairing are", ASAN_NOTE],
+    ),
 }
